@@ -2,7 +2,8 @@
 From Coq Require Import List Arith Sorting.Sorted.
 Import ListNotations.
 From Exmex.Model Require Import Base EvalBinary Lexer Flat Deep.
-From Exmex.Proofs Require Import Vars.
+From Exmex.Spec Require Import RefSem.
+From Exmex.Proofs Require Import Vars DeepSem DeepSubs C11Main DeepOps.
 Open Scope nat_scope.
 
 (* The variable list computed by both parsers (find_parsed_vars) is, for EVERY token list: strictly increasing in
@@ -55,7 +56,37 @@ Proof.
   exfalso. apply (Nat.lt_irrefl (length vals)). eapply Nat.lt_le_trans; eassumption.
 Qed.
 
+(* derived expressions: binary operator application lists the sorted union of the names of its operands, unary
+   application keeps the list, substitution lists the sorted names that remain or come in with the replacements -- for
+   every data type and table (the trivial relation is used for the semantic parameters of the underlying theorems; only
+   their structural conclusions are taken).  A derivative lists exactly the names of its antiderivative: C09. *)
+Theorem C04_binary_application_lists_the_sorted_union :
+  forall (D : Type) (C : carrier D) (tb : optable) (a b : deepex D) (name : str) (k : nat),
+  find_op name tb 0 = Some k -> is_bin tb k = true ->
+  dclosed (tflagged tb) (dvars a) a -> dclosed (tflagged tb) (dvars b) b ->
+  exists e, operate_bin C tb a b name = Ok e /\ dvars e = sort_strs (dvars a ++ dvars b) /\
+            StronglySorted str_lt (dvars e) /\ (forall x, In x (dvars e) <-> In x (dvars a) \/ In x (dvars b)).
+Proof.
+  intros D C tb a b name k Hf Hb Ha Hbb.
+  destruct (operate_bin_ok C tb (fun _ _ => True) (fun _ => I) (fun _ _ _ => I) (fun _ _ _ _ _ => I) (fun _ _ _ _ _ _ _ => I) (fun _ _ _ _ => I)
+              (fun _ _ _ _ _ => I) a b name k Hf Hb Ha Hbb) as (e & He & Hc & _).
+  exists e. split; [exact He|]. pose proof (dconsistent_vars _ _ _ Hc) as Hv. split; [exact Hv|]. rewrite Hv.
+  destruct (sort_strs_spec (dvars a ++ dvars b)) as (H1 & _ & H3). split; [exact H1|]. intros x. rewrite H3, in_app_iff. reflexivity.
+Qed.
+Theorem C04_substitution_lists_the_sorted_names :
+  forall (D : Type) (C : carrier D) (okop : dbop -> Prop) (sub : str -> option (deepex D)),
+  (forall x r, sub x = Some r -> dclosed okop (dvars r) r) ->
+  forall e : deepex D, dstruct okop e ->
+  exists e', subs C sub e = Ok e' /\ dvars e' = sort_strs (snames sub e) /\ StronglySorted str_lt (dvars e').
+Proof.
+  intros D C okop sub Hsub e Hs.
+  destruct (subs_ok C (fun _ _ => True) (fun _ => I) (fun _ _ _ => I) (fun _ _ _ _ _ => I) (fun _ _ _ _ _ _ _ => I) (fun _ _ _ _ => I) okop (fun _ _ _ _ _ _ => I) sub Hsub e Hs) as (e' & He & Hc & _).
+  exists e'. split; [exact He|]. pose proof (dconsistent_vars _ _ _ Hc) as Hv. split; [exact Hv|]. rewrite Hv. apply sort_strs_spec.
+Qed.
+
 Print Assumptions C04_vars_sorted_distinct_complete.
 Print Assumptions C04_binding_is_position.
 Print Assumptions C04_every_variable_has_an_index.
 Print Assumptions C04_arity_flat.
+Print Assumptions C04_binary_application_lists_the_sorted_union.
+Print Assumptions C04_substitution_lists_the_sorted_names.
